@@ -50,6 +50,9 @@ pub fn check(tier: Tier) -> Check {
     // (a PINGREQ: flavour 8; the user's DISCONNECT with a publish outstanding: flavour 6)
     parts.push(Part::new("C05/ops", json!({"depth": tier.pick(4, 5), "flavour": 8}), 0, tier.pick(40, 600)));
     parts.push(Part::new("C05/ops", json!({"depth": tier.pick(4, 5), "flavour": 6}), 0, tier.pick(40, 600)));
+    // acknowledgements with the non-zero success reason 0x10 in the alphabet
+    parts.push(Part::new("C05/ops", json!({"depth": tier.pick(5, 6), "nomatch": true}), 0, tier.pick(40, 600)));
+    parts.push(Part::new("C05/ops", json!({"depth": tier.pick(4, 5), "nomatch": true}), 1, tier.pick(40, 600)));
     // two operations outstanding whose packet identifiers differ in exactly one bit
     parts.push(Part::new("C05/bits", json!({}), 0, 120));
     // value flavour (DESIGN 4): the same exploration with requests / inbound messages of unusual content
@@ -323,7 +326,13 @@ pub fn scenario(name: &str, params: &Value) -> Scenario {
                     }
                 }
             }
-            evs.extend(broker_events(&sys, true));
+            if params["nomatch"].as_bool().unwrap_or(false) {
+                // also the success reason that is not zero (0x10 "no matching subscribers"): a PUBACK /
+                // PUBREC with it is an ordinary success - the QoS 2 exchange goes on to its PUBCOMP
+                evs.extend(super::common::broker_acks_ext(&sys, true, true, true));
+            } else {
+                evs.extend(broker_events(&sys, true));
+            }
             if evs.is_empty() {
                 break;
             }
